@@ -196,6 +196,34 @@ def run_case(spec, sub=None):
             if not ok or norm(l2) != norm(lin):
                 viol.append(f"ssa_to_linear(get_ssa_path) != get_path ({l2 if not ok else ''})")
 
+    # the compressed tree class: its default traversal is documented to be the
+    # path it was built from
+    if not viol and n >= 2:
+        ok, tc = guarded(
+            ctg.ContractionTreeCompressed.from_path, inputs, output, sizes, ssa_path=[tuple(p) for p in my_ssa]
+        )
+        if not ok:
+            viol.append(f"ContractionTreeCompressed.from_path raised {tc}")
+        elif set(tc.children) != my_nodes:
+            viol.append("ContractionTreeCompressed.from_path: internal nodes differ from the path's own")
+        else:
+            ok, sp = guarded(tc.get_ssa_path)
+            if not ok:
+                viol.append(f"ContractionTreeCompressed.get_ssa_path raised {sp}")
+            elif norm(sp) != norm(my_ssa):
+                viol.append(
+                    f"ContractionTreeCompressed built from ssa path {norm(my_ssa)} replays as {norm(sp)} by default"
+                )
+            ok, lp = guarded(tc.get_path)
+            if ok:
+                msg = ref.check_path_valid([tuple(x) for x in lp], n)
+                if msg:
+                    viol.append(f"ContractionTreeCompressed.get_path invalid: {msg}")
+                elif {p_ for p_, _, _ in ref.ssa_nodes(ref.linear_to_ssa_ref(lp, n), n)} != my_nodes:
+                    viol.append("ContractionTreeCompressed.get_path describes a different tree")
+            else:
+                viol.append(f"ContractionTreeCompressed.get_path raised {lp}")
+
     # general paths (1..3 tensor steps, maybe incomplete, explicit N)
     gpath = [tuple(s) for s in spec["gpath"]]
     gref = ref.linear_to_ssa_ref(gpath, n)
